@@ -24,6 +24,7 @@ import PubgrubProofs.StoreInvariant
 import PubgrubProofs.TreeSound
 import PubgrubProofs.SharedIds
 import PubgrubProofs.RangeAnyOrder2
+import PubgrubProofs.Examples
 
 namespace Pubgrub.C03
 open Pubgrub
@@ -117,5 +118,8 @@ theorem C03_range_shared_iff (W : World P (Range V) V M) (hW : W.RangesWF) (debu
   by apply range_C03_shared_iff (P := P) (V := V) (M := M) (Pr := Pr) (E := E) <;> assumption
 
 end AnyOrder2
+
+/-! Non-vacuity on concrete runs (PubgrubProofs/Examples.lean, evaluated by `decide +kernel`; registered in
+obligations.json so that their axioms are audited too): `Examples.example_B_run`, `Examples.example_B_tree_checkable`, `Examples.example_B_shared_iff`. -/
 
 end Pubgrub.C03
